@@ -23,8 +23,8 @@ VARIANTS = [
       "            y = y if y.requires_grad else y.detach().requires_grad_(True)\n            g = self.g(t, y)\n            vg_dg_vjp, = misc.vjp(\n                outputs=g,\n                inputs=y,\n                grad_outputs=g.detach() * v2,", rule="R08.1"),
     V("leafify-always", BS, "    def dg_ga_jvp_column_sum_v1(self, t, y, a):\n        requires_grad = torch.is_grad_enabled()\n        with torch.enable_grad():\n            y = y if y.requires_grad else y.detach().requires_grad_(True)",
       "    def dg_ga_jvp_column_sum_v1(self, t, y, a):\n        requires_grad = torch.is_grad_enabled()\n        with torch.enable_grad():\n            y = y.detach().requires_grad_(True)", rule="R08.1"),
-    V("stable-division-detached-value", CORE + "misc.py", "    b = torch.where(b.abs().detach() > epsilon, b, torch.full_like(b, fill_value=epsilon) * b.sign())",
-      "    b = torch.where(b.abs() > epsilon, b.detach(), torch.full_like(b, fill_value=epsilon) * b.sign())", rule="R08.1"),
+    V("stable-division-detached-value", CORE + "misc.py", "    b = torch.where(b.abs().detach() > epsilon, b, torch.full_like(b, fill_value=epsilon).copysign(b))",
+      "    b = torch.where(b.abs() > epsilon, b.detach(), torch.full_like(b, fill_value=epsilon).copysign(b))", rule="R08.1"),
     V("interp-data", CORE + "interp.py", "    y = (t1 - t) / (t1 - t0) * y0 + (t - t0) / (t1 - t0) * y1\n", "    y = (t1 - t) / (t1 - t0) * y0.data + (t - t0) / (t1 - t0) * y1\n", rule="R08.1"),
     V("no-grad-wider", SOLV, "                    # Estimate error based on difference between 1 full step and 2 half steps.\n                    with torch.no_grad():\n",
       "                    # Estimate error based on difference between 1 full step and 2 half steps.\n                    with torch.no_grad():\n                        next_y = next_y + 0\n", rule="R08.1"),
